@@ -21,12 +21,16 @@ CLAIMED = {
          "Five session states (idle, solicited confirm wait final / mid-series, data and null unsolicited confirm wait) x function code 0..=255 x 16 FIR/FIN/CON/UNS combinations x sequence {0,15} x a per-function menu of accepted / rejected / unparsable object headers (singly, and all ordered pairs for functions 1..=30) x transmit buffer {249, 2048 thorough}, plus control and READ requests sized around the transmit/receive limits. Oracle: solicited responses carry the request's sequence number without UNS; unsolicited ones carry UNS/FIR/FIN/CON with consecutive numbering; CONFIRM and no-response codes are never answered; every fragment fits the transmit size and is decodable by the engine's own object walker; unsupported / malformed / partly rejected requests carry IIN2.0-2.",
          "Trusted: engine codecs and the reference classification of which headers each function accepts (written from IEEE 1815 and the statement). Fragments < 2 bytes and fragments with a response function code are not treated as requests.",
          "DESIGN.md §5 C12", True),
+ "C03": ("model_checking",
+         "bounded-exhaustive exploration of all event histories of the real outstation task with an event-ledger reference model stepped in lock-step, plus a liveness drain after every history",
+         "All histories over a 14-20 letter alphabet (updates of four points in three classes incl. two binaries in different classes, READ by class / count-limited / by type / class 0, right and wrong solicited and unsolicited confirms, confirm timeout, DISABLE/ENABLE_UNSOLICITED, another request, reconnect) to depth 4 (quick) / 5-7 (thorough), per-type event buffers 1/2/5, absolute-time and CTO event variations, unsolicited off/on with 0/1 retries. The ledger holds every event the database API reported; after every event it checks: releases only for rows of the response that a matching, still-awaited confirm covers (R1/R2), every such row released (R2c), oldest-first and no skipped older row (R3), transmitted objects equal a recorded event (R4), nothing transmitted after release/discard except byte-identical re-sends (R1b/R6), end_confirm counts (R7); after each history an ideal master drains the buffer and every held event must be delivered (R5).",
+         "Trusted: engine codecs, DESIGN 2.3. Time advances only in whole confirm timeouts. Values/times are unique per update so an object identifies its row.",
+         "DESIGN.md §5 C03", True),
 }
 
 NOT_YET = {
  "C01": "designed in DESIGN §5 C01 (hostile-input sweeps + session states); check not built yet",
  "C02": "designed in DESIGN §5 C02 (paired master/outstation simulation); check not built yet",
- "C03": "designed in DESIGN §5 C03 (event ledger); check not built yet",
  "C06": "designed in DESIGN §5 C06; check not built yet",
  "C07": "designed in DESIGN §5 C07; check not built yet",
  "C08": "designed in DESIGN §5 C08; check not built yet",
